@@ -192,6 +192,42 @@ CLAIMED = {
                 "reload runs; one rule per resource in the reload runs (controller order after a reload is free).",
         "technique": "Coq proof (permutation lemma for the rebuild, invariant over operation sequences) + reload-insertion differential correspondence by vm_compute",
     },
+    "C18": {
+        "text": "Metric-line half — theorems (Props/C18.v) over the byte-level model of MetricItem's Display and "
+                "from_string: every line produced for an item (any counters within their integer types, any "
+                "resource type, timestamp and name bytes) parses back to the same item with only the separator "
+                "replaced in the name; any byte string parses to an error or to an item with in-range fields. The "
+                "model is compared byte-for-byte with the crate on generated items and mutated lines. Rule-JSON half "
+                "— no theorem (serde's derive semantics are library code): rules of all five families are "
+                "round-tripped through serde_json on the implementation, every field dropped (default), mistyped "
+                "(error) and the document cut at every byte (error, no panic).",
+        "design_ref": "DESIGN.md §6 C18",
+        "note": "PARTIAL: the proof covers the metric-line codec only; the rule-JSON statements are implementation-"
+                "level tests. Trusted: Coq kernel + VM (axiom-free); the time crate's HH:MM:SS formatting and Rust's "
+                "integer Display/FromStr are modelled; timestamps below year 10000; non-finite thresholds are "
+                "outside the JSON round trip (serde_json writes them as null).",
+        "technique": "Coq proof (decimal print/parse round trip, separator-free fields) + byte-exact correspondence by vm_compute; rule JSON: implementation-level round-trip testing",
+    },
+    "C12": {
+        "text": "Theorems (Props/C12.v): the panic / hang points of the code are explicit outcomes of the models and "
+                "are shown unreachable — every flow rule gets a working statistic for any interval; no build, exit "
+                "or read on resources with flow-reject / isolation rules panics; a resource with any hotspot rules "
+                "never hangs in the checker's retry loop; the managers' rebuild is total (refines the reference "
+                "map); and validity (mirrored for all five families in Model/Rules.v) implies the premises of the "
+                "family theorems. Correspondence: one fresh process per case — a rule from the cross product of "
+                "enum fields x boundary / out-of-range numerics (NaN, inf, negative, zero, huge) of all five "
+                "families is offered through load-all / load-for-resource / append, entries with no / short / long "
+                "/ keyed arguments are built and exited, every manager is then probed on an unrelated resource; "
+                "the validity verdict, the loading answer and 'listed' are compared with the model, panics and "
+                "failed probes must be zero.",
+        "design_ref": "DESIGN.md §6 C12",
+        "note": "Trusted: Coq kernel + VM; Flocq IEEE comparison for the threshold tests; no-panic for throttling, "
+                "warm-up and the circuit-breaker slot is covered by the cross-product runs and by the totality of "
+                "their models (C03, C07) rather than by a separate theorem; i64 overflow in flow throttling is an "
+                "explicit outcome excluded by hypothesis in C07 (unreachable for batch <= threshold in the sane range, "
+                "exercised not proved).",
+        "technique": "Coq proof (unreachability of modelled panic outcomes, validity premises) + per-process cross-product correspondence by vm_compute",
+    },
 }
 
 REASON_TODO = "not yet covered by the Coq development in this revision (planned, see DESIGN.md §6); no check is claimed"
